@@ -744,5 +744,6 @@ func TestC22(t *testing.T) {
 }
 
 func FuzzC22(f *testing.F) {
+	kvmodel.SeedCorpus(f)
 	f.Fuzz(rapid.MakeFuzz(prop))
 }
